@@ -24,6 +24,7 @@ the visited element ITEM; `unwrap(ACC)` is the accumulator's payload in every sp
 Also here: `text_parts` (format! / push_str / helper -> one list of text pieces) and `ResultPaths` / `result_paths`
 (the Ok / Err outcomes of a fallible function as decision paths, independent of `?` / combinators / match / helpers).
 """
+import re
 from .lib.mir import op_place
 from .lib.value import Slicer, subst, canon, walk, vstr
 from .lib.paths import strip
@@ -40,6 +41,7 @@ FULL_T = frozenset(('Less', 'Equal', 'Greater'))
 FULL_P = FULL_T | {'None'}
 REL = {'gt': {'Greater'}, 'ge': {'Greater', 'Equal'}, 'lt': {'Less'}, 'le': {'Less', 'Equal'}}
 FLIP = {'Less': 'Greater', 'Greater': 'Less', 'Equal': 'Equal', 'None': 'None'}
+NONE_V = ('agg', OPT, 'None', ())
 LEAF = ('const', 'param', 'fnitem', 'constitem', 'unknown', 'closure_env', 'upvar', 'item', 'acc', 'pathlocal')
 
 
@@ -371,6 +373,17 @@ class Engine:
         g = self.prog.fns.get(name)
         if g is not None and g.kind != 'Closure' and not g.impl_trait and g.blocks and g.ret == 'bool':
             return self.bool_cases(g, {(g.path, i): x for i, x in enumerate(args) if i < g.argc}, oc, depth + 1)
+        if name.split('::')[-1] in ('eq', 'ne') and 'PartialEq' in name and len(args) == 2 and strip(args[0])[0] == 'tuple' and strip(args[1])[0] == 'tuple' \
+                and len(strip(args[0])[1]) == len(strip(args[1])[1]) >= 1:
+            # std's PartialEq for tuples: (a1, .., an) == (b1, .., bn) is a1 == b1 && .. && an == bn, left to right and
+            # short-circuiting; `!=` is its negation.  So `(x.os, x.arch) == (os, arch)` (also with the right-hand tuple
+            # hoisted into a local) is the same decision as `x.os == os && x.arch == arch`.
+            comp = [('call', 'std::cmp::PartialEq::eq', (x, y), None) for x, y in zip(strip(args[0])[1], strip(args[1])[1])]
+            if (name.split('::')[-1] == 'eq') == oc:
+                cases = [[('bool', c, True) for c in comp]]
+            else:
+                cases = [[('bool', c, True) for c in comp[:i]] + [('bool', comp[i], False)] for i in range(len(comp))]
+            return [r for case in cases for r in self.expand_case(case, depth + 1)]
         if name.startswith('std::option::Option::<') and args:
             meth = name.split('::')[-1]
             o = args[0]
@@ -498,6 +511,26 @@ class Engine:
             some, none = ('variant', o, OPT, frozenset(('Some',))), ('variant', o, OPT, frozenset(('None',)))
             dflt = [([], args[1])] if name.endswith('::map_or') else self.apply_cases(args[1], (), depth)
             rows = [([none] + c, x) for c, x in dflt] + [([some] + c, x) for c, x in self.apply_cases(args[2], (self.sl.mk_unwrap(o),), depth)]
+        elif name.startswith('std::option::Option::<') and name.endswith('::filter') and len(args) == 2:
+            # Option::filter(o, p) = o when o is Some(x) and p(&x), otherwise None
+            rows = []
+            for case, ov, st in self._opt_rows(args[0], depth):
+                if st == 'none':
+                    rows.append((case, NONE_V))
+                    continue
+                x = self.sl.mk_unwrap(ov)
+                rows += [(case + c, ov) for c in self.callee_cases(strip(args[1]), (x,), True, depth)]
+                rows += [(case + c, NONE_V) for c in self.callee_cases(strip(args[1]), (x,), False, depth)]
+        elif name.startswith('std::option::Option::<') and name.endswith(('::or', '::or_else')) and len(args) == 2:
+            # Option::or(o, d) = o when o is Some, otherwise d   (or_else: d() evaluated only then)
+            rows = []
+            for case, ov, st in self._opt_rows(args[0], depth):
+                if st == 'some':
+                    rows.append((case, ov))
+                elif name.endswith('::or'):
+                    rows.append((case, args[1]))
+                else:
+                    rows += [(case + c, x) for c, x in self.apply_cases(args[1], (), depth)]
         elif name in FN_CALLS and len(args) == 2 and strip(args[0])[0] in ('closure', 'fnitem') and args[1][0] == 'tuple':
             rows = self.apply_cases(args[0], tuple(args[1][1]), depth)
         else:
@@ -512,6 +545,25 @@ class Engine:
                 out.append((case + extra, y))
             if len(out) > 200:
                 raise Giveup('step too wide')
+        return out
+
+    def _opt_rows(self, o, depth):
+        """[(decisions, value, 'some' | 'none')]: the Option-valued expression o case by case, each case knowing
+        whether the value is Some or None there (from a literal, from a decision already taken, or by splitting)"""
+        out = []
+        for case, ov in self.value_cases(o, depth + 1):
+            sv = strip(ov) if ov[0] != 'agg' else ov
+            if sv[0] == 'agg' and (sv[1] or '') == OPT and sv[2] in ('Some', 'None'):
+                out.append((case, ov, sv[2].lower()))
+                continue
+            known = {frozenset(a[3]) for a in case if a[0] == 'variant' and a[2] == OPT and canon(a[1]) == canon(ov)}
+            if frozenset(('Some',)) in known or frozenset(('None',)) in known:
+                if len(known) == 1:         # (contradictory decisions: the case cannot happen)
+                    out.append((case, ov, 'some' if frozenset(('Some',)) in known else 'none'))
+                continue
+            for n in ('Some', 'None'):
+                for extra in self.expand_atom(('variant', ov, OPT, frozenset((n,))), depth):
+                    out.append((case + extra, ov, n.lower()))
         return out
 
     # ---- the selection model --------------------------------------------------------------------------------
@@ -1166,6 +1218,7 @@ class ResultPaths(Engine):
 
 def result_paths(prog, sl, fn):
     """[(decisions, 'ok' | 'err', payload)] of fn (see ResultPaths); raises Giveup"""
+    _PROG[0], _PROG[1] = prog, sl
     return ResultPaths(prog, sl).rpaths(fn, {}, 0)
 
 
@@ -1225,10 +1278,123 @@ def _found_plus(v):
     return None
 
 
-def norm_split(v):
+# round 5: two more spellings of the same primitives
+#   * `<Vec<u8> as hex::FromHex>::from_hex(x)` is what hex 0.4 defines `hex::decode(x)` to be (same errors)
+#   * `let mut it = s.splitn(2, P); it.next().zip(it.next())`: a SplitN limited to 2 pieces yields first the text
+#     before the first match of P (or all of s when there is none; always Some) and then, iff P occurs, the text after
+#     that match; so zip(1st next, 2nd next) is Some((before, after)) exactly when P occurs == s.split_once(P).
+#     Which `next` is the first / second is read off the CFG (the call sites are totally ordered by dominance, none in
+#     a loop) and the iterator must not be handed to anything but these `next` calls (_splitn_ordinal).
+FROM_HEX_VEC = '<std::vec::Vec<u8> as hex::FromHex>::from_hex'
+SPLITN = 'core::str::<impl str>::splitn'
+ZIP = 'std::option::Option::<T>::zip'
+_PROG = [None, None]
+_ORD_CACHE = {}
+
+
+def _site(v):
+    return v[3] if v[0] == 'call' and len(v) > 3 and isinstance(v[3], tuple) and len(v[3]) == 2 else None
+
+
+def _splitn_ordinal(nx):
+    """(k, total) when the value nx = Iterator::next(<splitn call>) is the k-th of `total` advances of that SplitN (1-based)"""
+    prog = _PROG[0]
+    if prog is None or not (is_call(nx, IT + 'next') and len(nx[2]) == 1 and is_call(strip(nx[2][0]), SPLITN)):
+        return None
+    it, s_nx, s_it = strip(nx[2][0]), _site(nx), _site(strip(nx[2][0]))
+    if s_nx is None or s_it is None or s_nx[0] != s_it[0] or s_it[0] not in prog.fns:
+        return None
+    key = (s_it, id(prog))
+    if key not in _ORD_CACHE:
+        fn = prog.fns[s_it[0]]
+        sl = _PROG[1]
+        order = None
+        if sl is not None:
+            users, bad = [], False
+            for g in [fn] + list(prog.closures_of(fn)):
+                for c in g.calls:
+                    for a in c.args:
+                        try:
+                            av = strip(sl.operand(g, a))
+                        except Exception:
+                            continue
+                        if is_call(av, SPLITN) and _site(av) == s_it:
+                            if g is fn and not c.indirect and (c.decl or '').endswith('Iterator::next') and not fn.in_loop(c.bb):
+                                users.append(c.bb)
+                            else:
+                                bad = True
+            # (a closure capturing the iterator shows up as an upvar of that closure, not as a call argument)
+            for g in prog.closures_of(fn):
+                for x in walk(sl.local(g, 0)):
+                    if is_call(x, SPLITN):
+                        bad = True
+            if not bad and users and len(set(users)) == len(users):
+                users.sort(key=lambda b: sum(1 for o in users if o != b and fn.dominates(o, b)))
+                if all(fn.dominates(users[i], users[i + 1]) for i in range(len(users) - 1)):
+                    order = users
+        _ORD_CACHE[key] = order
+    order = _ORD_CACHE[key]
+    if not order or s_nx[1] not in order:
+        return None
+    return order.index(s_nx[1]) + 1, len(order)
+
+
+def _splitn2(nx):
+    """(k, splitn call, equivalent split_once call) when nx is the k-th `next()` of `s.splitn(2, <literal>)`"""
+    o = _splitn_ordinal(nx)
+    if o is None:
+        return None
+    it = strip(nx[2][0])
+    if len(it[2]) == 3 and strip(it[2][1]) == ('const', 2) and strip(it[2][2])[0] == 'const' and isinstance(strip(it[2][2])[1], str) and strip(it[2][2])[1]:
+        return o[0], it, ('call', SPLIT, (it[2][0], strip(it[2][2])), _site(it))
+    return None
+
+
+def _second_pieces(v):
+    """sites of the splitn(2, P) iterators whose second piece is used in v (so, where v is evaluated, P was found)"""
+    out = set()
+    for x in walk(v):
+        if isinstance(x, tuple) and x and x[0] == 'unwrap' and isinstance(x[1], tuple):
+            k = _splitn2(x[1])
+            if k is not None and k[0] == 2:
+                out.add(_site(k[1]))
+    return out
+
+
+def _rw_splitn(v, some2):
+    """the pieces of `let mut it = s.splitn(2, P)` taken one `next()` at a time, in split_once terms: the payload of the
+    2nd next() is the text after the first P; where a 2nd piece exists (some2), the payload of the 1st next() is the
+    text before it (without a 2nd piece the 1st is all of s: left as it is)"""
     if not isinstance(v, tuple) or not v or (isinstance(v[0], str) and v[0] in LEAF):
         return v
-    out = tuple(norm_split(x) if isinstance(x, tuple) else x for x in v)
+    if v[0] == 'unwrap' and len(v) == 2 and isinstance(v[1], tuple):
+        k = _splitn2(v[1])
+        if k is not None and k[0] == 2:
+            return ('field', ('unwrap', k[2]), '1')
+        if k is not None and k[0] == 1 and _site(k[1]) in some2:
+            return ('field', ('unwrap', k[2]), '0')
+    return tuple(_rw_splitn(x, some2) if isinstance(x, tuple) else x for x in v)
+
+
+def norm_split(v, some2=None):
+    if _PROG[0] is not None and isinstance(v, tuple) and any(is_call(x, SPLITN) for x in walk(v)):
+        v = _rw_splitn(v, _second_pieces(v) | (some2 or set()))
+    return _norm_split(v)
+
+
+def _norm_split(v):
+    if not isinstance(v, tuple) or not v or (isinstance(v[0], str) and v[0] in LEAF):
+        return v
+    out = tuple(_norm_split(x) if isinstance(x, tuple) else x for x in v)
+    if is_call(out, FROM_HEX_VEC) and len(out[2]) == 1:
+        return ('call', HEXDEC) + out[2:]
+    if is_call(out, ZIP) and len(out[2]) == 2:
+        a, b = strip(out[2][0]), strip(out[2][1])
+        oa, ob = _splitn_ordinal(a), _splitn_ordinal(b)
+        if oa is not None and ob is not None and oa[0] == 1 and ob[0] == 2 and canon(strip(a[2][0])) == canon(strip(b[2][0])):
+            it = strip(a[2][0])
+            if len(it[2]) == 3 and strip(it[2][1]) == ('const', 2) and strip(it[2][2])[0] == 'const' and isinstance(strip(it[2][2])[1], str) and strip(it[2][2])[1]:
+                return ('call', SPLIT, (it[2][0], strip(it[2][2]))) + out[3:]
     # s.split_at(s.find(P)?) = (text before the match, the match and what follows it)
     if out[0] == 'field' and str(out[2]) == '0' and is_call(out[1], SPLIT_AT) and len(out[1][2]) == 2:
         f = _found(out[1][2][1])
@@ -1263,22 +1429,37 @@ def norm_split_paths(rp):
     out = []
     for atoms, k, p in rp:
         na = []
+        # pieces of a splitn(2, P) taken one next() at a time: on a path where the 2nd next() gave Some (or whose
+        # payload uses that piece) P was found; "2nd next() is Some / None" is "split_once(P) is Some / None", and
+        # "1st next() is Some" always holds (a SplitN yields at least one piece, also for the empty string)
+        some2 = _second_pieces(p) if p is not None and _PROG[0] is not None else set()
+        pre = []
         for a in atoms:
+            sv = a[3] if a[0] == 'res' else (a[1] if a[0] == 'variant' and a[2] == OPT else None)
+            k2 = _splitn2(sv) if sv is not None and _PROG[0] is not None else None
+            if k2 is not None and k2[0] == 2:
+                if (a[0] == 'res' and a[2] == 'ok') or (a[0] == 'variant' and frozenset(a[3]) == {'Some'}):
+                    some2.add(_site(k2[1]))
+                a = ('res', canon(k2[2]), a[2], k2[2]) if a[0] == 'res' else ('variant', k2[2], a[2], a[3])
+            elif k2 is not None and k2[0] == 1 and ((a[0] == 'res' and a[2] == 'ok') or (a[0] == 'variant' and frozenset(a[3]) == {'Some'})):
+                continue
+            pre.append(a)
+        for a in pre:
             if a[0] == 'res':
-                v = norm_split(a[3])
+                v = norm_split(a[3], some2)
                 if is_call(v, FIND) and len(v[2]) == 2 and v[2][1][0] == 'const' and isinstance(v[2][1][1], str) and v[2][1][1]:
                     v = ('call', SPLIT, v[2], v[3] if len(v) > 3 else None)
                 na.append(('res', canon(v), a[2], v))
             elif a[0] == 'variant':
-                v = norm_split(a[1])
+                v = norm_split(a[1], some2)
                 if is_call(v, FIND) and a[2] == OPT and len(v[2]) == 2 and v[2][1][0] == 'const' and isinstance(v[2][1][1], str) and v[2][1][1]:
                     v = ('call', SPLIT, v[2], v[3] if len(v) > 3 else None)
                 na.append(('variant', v, a[2], a[3]))
             elif a[0] == 'bool':
-                na.append(('bool', norm_split(a[1]), a[2]))
+                na.append(('bool', norm_split(a[1], some2), a[2]))
             else:
                 na.append(a)
-        out.append((na, k, norm_split(p) if p is not None else None))
+        out.append((na, k, norm_split(p, some2) if p is not None else None))
     return out
 
 
@@ -1483,3 +1664,48 @@ def inplace_mutations(prog, fn, ignore_ty=('std::fmt::Formatter',)):
 def _rv_places(rv):
     from .lib.mir import _rvalue_places
     return list(_rvalue_places(rv))
+
+
+# ---- round 5: spelling-independent readings for R5 (digest descriptors) ------------------------------------------
+def str_eq_const(v):
+    """(subject, literal) when the boolean v is byte-wise equality of a string with a literal:
+    `s == "lit"` / `"lit" == s` / `s.eq("lit")` (PartialEq::eq on str / String / &str, symmetric),
+    `matches!(s, "lit")` / `match s { "lit" => true, _ => false }` (a select over a str scrutinee whose only true arm
+    is the one literal and whose wildcard arm is false).  Anything else (several literals, a negated table, a
+    prefix / case-folding test) is None."""
+    v = strip(v)
+    if v[0] == 'call' and v[1].endswith('::eq') and 'PartialEq' in v[1] and len(v[2]) == 2:
+        for a, b in ((v[2][0], v[2][1]), (v[2][1], v[2][0])):
+            if strip(b)[0] == 'const' and isinstance(strip(b)[1], str):
+                return a, strip(b)[1]
+        return None
+    if v[0] == 'select' and v[2] in ('str', '&str', 'std::string::String'):
+        arms = [(tuple(pats), strip(val)) for pats, val in v[3]]
+        true = [p for p, val in arms if val == ('const', True)]
+        false = [p for p, val in arms if val == ('const', False)]
+        if len(arms) == 2 and len(true) == 1 and len(false) == 1 and false[0] == ('*',) and len(true[0]) == 1 and true[0][0] != '*':
+            return v[1], true[0][0]
+    return None
+
+
+def size_self_types(prog, fn, env=None, depth=0):
+    """The Self types of every `OutputSizeUser::output_size()` call that fn's result can come from, looking through
+    private generic helpers with the call site's generic arguments substituted for the helper's type parameter
+    (`output_len::<Sha256>()` -> `<Sha256 as OutputSizeUser>::output_size`).  None in the list = a type that could
+    not be resolved."""
+    out = []
+    if depth > 4:
+        return [None]
+    for c in fn.calls:
+        n = c.decl or c.name or ''
+        if n.endswith('::output_size'):
+            m = re.match(r'^<(.*) as [^<>]*(?:<.*>)?>::output_size$', c.full or '')
+            t = (c.ga[0] if c.ga else None) or (m.group(1) if m else None)
+            if t is not None and re.match(r'^\w+$', t):          # a bare type parameter of the enclosing helper
+                t = env
+            out.append(t)
+        elif not c.indirect and c.name in prog.fns and prog.fns[c.name].crate == fn.crate:
+            g = prog.fns[c.name]
+            ga = [(env if re.match(r'^\w+$', x) and x not in ('usize', 'str', 'bool') else x) for x in (c.ga or [])]
+            out.extend(size_self_types(prog, g, ga[0] if len(ga) == 1 else None, depth + 1))
+    return out
